@@ -83,6 +83,44 @@ def landmark_roundtrip(pcls):
     return lambda pkg: run_obligation(pkg, fn, max_paths=32)
 
 
+def reexport(kind, cls):
+    """The file describes the object as it is *when it is written*: export, let the caller assign new values (pose / measurement /
+    information), export again -- the second text must read back as the current object."""
+    def fn(it):
+        if kind == "vertex":
+            v = build_vertex(it, cls, "v")
+            it.call_method(v, "to_g2o", [])
+            sa(v, "pose", ga(build_vertex(it, cls, "n"), "pose"))
+            line = expect_str(it.call_method(v, "to_g2o", []), "Vertex.to_g2o[%s]" % cls)
+            _, v2 = read_line(it, line, expect="Vertex")
+            same_vertex(it, v2, v, "Vertex[%s] exported a second time after the caller assigned a new pose" % cls)
+            return dict(line_tag=line.split(" ")[0])
+        lcls = {"PoseSE2": "PoseR2", "PoseSE3": "PoseR3"}[cls]
+        params = {}
+        if kind == "odometry":
+            v1, v2 = build_vertex(it, cls, "a"), build_vertex(it, cls, "b")
+            e, n_ = build_odometry(it, cls, "e", v1, v2), build_odometry(it, cls, "n", v1, v2)
+            expect = "EdgeOdometry"
+        else:
+            v1, v2 = build_vertex(it, cls, "a"), build_vertex(it, lcls, "b")
+            if cls == "PoseSE3":
+                p = build_param(it, "G2OParameterSE3Offset", "p")
+                params[it.hashable(ga(p, "key"), None)] = p
+                offset, oid = ga(p, "value"), ga(p, "key")[1]
+            else:
+                offset, oid = Pose("PoseSE2", [Poly(), Poly(), Poly()]), Poly.var("oid")
+            e, n_ = build_landmark(it, cls, "e", v1, v2, offset, oid), build_landmark(it, cls, "n", v1, v2, offset, oid)
+            expect = "EdgeLandmark"
+        it.call_method(e, "to_g2o", [])
+        sa(e, "information", ga(n_, "information"))
+        sa(e, "estimate", ga(n_, "estimate"))
+        line = expect_str(it.call_method(e, "to_g2o", []), "%s.to_g2o[%s]" % (expect, cls))
+        _, e2 = read_line(it, line, params, expect=expect)
+        same_edge(it, e2, e, "%s[%s] exported a second time after the caller assigned a new measurement and information matrix" % (expect, cls))
+        return dict(line_tag=line.split(" ")[0])
+    return lambda pkg: run_obligation(pkg, fn, max_paths=32)
+
+
 def param_roundtrip(cls):
     def fn(it):
         p = build_param(it, cls, "p")
@@ -238,6 +276,9 @@ def run(run_, pkg, tier):
         add("C13-roundtrip/EdgeLandmark[%s]" % cls, "C13-L124-writer-reader-agree-nothing-dropped", landmark_roundtrip(cls), lt)
     for cls in ("G2OParameterSE2Offset", "G2OParameterSE3Offset"):
         add("C13-roundtrip/%s" % cls, "C13-L12-writer-reader-agree", param_roundtrip(cls), pkg.method(cls, "to_g2o"))
+    for kind, cls, anchor in (("vertex", "PoseSE2", vt), ("vertex", "PoseR3", vt), ("odometry", "PoseSE2", ot), ("odometry", "PoseSE3", ot),
+                              ("landmark", "PoseSE2", lt), ("landmark", "PoseSE3", lt)):
+        add("C13-reexport/%s[%s]" % (kind, cls), "C13-L12-writer-describes-current-object", reexport(kind, cls), anchor)
     for kind, anchor in (("odometry:PoseR2", ot), ("odometry:PoseR3", ot), ("landmark:PoseR2", lt), ("landmark:PoseR3", lt), ("vertex:None", vt)):
         add("C13-refusal/%s" % kind, "C13-L4-unrepresentable-refused", refusal(kind), anchor)
     gt = pkg.method("Graph", "to_g2o")
@@ -258,4 +299,4 @@ def run(run_, pkg, tier):
                     extra.append(("C13-roundtrip/Graph/%d-lines (directed at the size constant %d in the code)" % (k, c), "C13-L3-graph-order",
                                   sized_graph_roundtrip(k), "%s:%d" % (gt._gs_module, gt.lineno)))
         record(run_, extra, run_tasks(pkg, extra))
-    run_.floor("C13 obligations", len(tasks) if run_.only is None else 17, 17)
+    run_.floor("C13 obligations", len(tasks) if run_.only is None else 23, 23)
